@@ -1,0 +1,21 @@
+// SPDX-FileCopyrightText: 2026 The Pion community <https://pion.ly>
+// SPDX-License-Identifier: MIT
+
+//go:build verif
+
+package flexfec
+
+// VerifC11Stream reports whether encoder state exists for ssrc and whether its
+// media packet batch is empty (lifecycle check C11).
+func (r *FecInterceptor) VerifC11Stream(ssrc uint32) (exists, fresh bool) {
+	r.mu.Lock()
+	stream, ok := r.streams[ssrc]
+	r.mu.Unlock()
+	if !ok {
+		return false, true
+	}
+	stream.mu.Lock()
+	defer stream.mu.Unlock()
+
+	return true, len(stream.packetBuffer) == 0
+}
